@@ -4,6 +4,49 @@ P = 2188824287183927522224640574525727508854836440041603434369820418657580849561
 FIELD_BOUNDARY = [0, 1, 2, 3, P - 1, P - 2, (P - 1) // 2, (P + 1) // 2, 2**64 - 1, 2**64, 2**128, 2**253, 2**253 + 1, 2**254 - 1 - P]
 
 
+def _limbs(v):
+    return [(v >> (64 * k)) & (2**64 - 1) for k in range(4)]
+
+
+def _of_limbs(l):
+    return sum(x << (64 * k) for k, x in enumerate(l))
+
+
+def limb_boundary(M=P):
+    """values on which a limb-by-limb (lexicographic) comparison with M takes each of its branches: equal to M in the top limbs,
+    one above / one below M in limb k, with all-zero / all-one / M's own lower limbs — and the same around every lower limb of M
+    used in the WRONG row (a row that compares limb k with M's limb j != k)"""
+    m = _limbs(M)
+    out = set()
+    for k in range(4):
+        for d in (-1, 1):
+            for low in ("zero", "ones", "same"):
+                l = list(m)
+                l[k] = (m[k] + d) % 2**64
+                for j in range(k):
+                    l[j] = 0 if low == "zero" else 2**64 - 1 if low == "ones" else m[j]
+                out.add(_of_limbs(l))
+        for j in range(4):
+            if j != k:
+                for d in (-1, 0, 1):
+                    l = list(m)
+                    l[k] = (m[j] + d) % 2**64       # limb k carries the value of M's limb j (+-1)
+                    for i in range(k):
+                        l[i] = 5
+                    out.add(_of_limbs(l))
+    return sorted(out)
+
+
+# special in the INTERNAL (Montgomery) representation: k * R^-1 and k * R mod p have a tiny / structured limb pattern inside arkworks
+_R = pow(2, 256, P)
+_RINV = pow(_R, P - 2, P)
+MONTGOMERY_SMALL = [(k * _RINV) % P for k in (1, 2, 3, 7, 2**32, 2**63, 2**64 - 1)] + [(k * _R) % P for k in (1, 2, 3)]
+# canonical values just below p at limb granularity (for range / canonicity checks written limb by limb)
+NEAR_MODULUS = [v for v in limb_boundary(P) if v < P]
+ABOVE_MODULUS = [v for v in limb_boundary(P) if P <= v < 2**256]
+FIELD_BOUNDARY_EXT = FIELD_BOUNDARY + MONTGOMERY_SMALL + NEAR_MODULUS[:: max(1, len(NEAR_MODULUS) // 12)]
+
+
 def fr_hex(v):
     return hex(v)
 
